@@ -246,11 +246,22 @@ func (r *reader) Position() (int, Segment) {
 
 func (r *reader) SetPosition(line int, pos Segment) {
 	r.lineOffset = -1
+	r.peekedLine = nil
 	r.line = line
 	r.pos = pos
+	head := pos.Start
+	if head > r.sourceLength {
+		head = r.sourceLength
+	}
+	for head > 0 && r.source[head-1] != '\n' {
+		head--
+	}
+	r.head = head
 }
 
 func (r *reader) SetPadding(v int) {
+	r.lineOffset = -1
+	r.peekedLine = nil
 	r.pos.Padding = v
 }
 
